@@ -470,7 +470,7 @@ func partRealRegistryAcrossReregistration(c *check.Ctx, a *acc) {
 			panic(err)
 		case jr == nil:
 			code, _ := scen.IsErr(ev)
-			rf([]string{"C07", "C10"}, "registry/live-session-not-findable", "after a re-registration, the live session %s (uuid %s; its creator is still connected) cannot be joined by the id its creator was given: error %d", cl.SID, cl.UUID, code)
+			rf([]string{"C07", "C10", "C04"}, "registry/live-session-not-findable", "after a re-registration, the live session %s (uuid %s; its creator is still connected) cannot be joined by the id its creator was given: error %d", cl.SID, cl.UUID, code)
 		case jr.SessionUuid != cl.UUID:
 			rf([]string{"C10", "C07"}, "registry/id-names-another-session", "after a re-registration, joining the id %s given to the creator of uuid %s lands in uuid %s", cl.SID, cl.UUID, jr.SessionUuid)
 		}
